@@ -71,7 +71,7 @@ class CallMixin:
         if isinstance(t, DictT):
             return st.alloc(HObj('dict', items={k: self.make_symbolic(x, f'{name}_{k}', st) for k, x in t.items.items()}))
         if isinstance(t, MapT):
-            ks = U if t.key == 'U' else z3.IntSort()
+            ks = {'U': U, 'Int': z3.IntSort(), 'Str': z3.StringSort()}[t.key]
             present = z3.Array(fresh_name(name + '_present'), ks, z3.BoolSort())
             if isinstance(t.val, RecordT):
                 vals = {fn: z3.Array(fresh_name(f'{name}_{fn}'), ks, z3.RealSort() if ft is Real else z3.IntSort())
@@ -89,7 +89,7 @@ class CallMixin:
             vals = z3.Array(fresh_name(name + '_vals'), ks, vs)
             return st.alloc(HObj('smap', meta={'present': present, 'vals': vals, 'default_int': t.default_int, 'key': t.key, 'val_t': t.val}))
         if isinstance(t, SetT):
-            ks = U if t.key == 'U' else z3.IntSort()
+            ks = {'U': U, 'Int': z3.IntSort(), 'Str': z3.StringSort()}[t.key]
             return st.alloc(HObj('sset', meta={'present': z3.Array(fresh_name(name + '_set'), ks, z3.BoolSort()), 'key': t.key,
                                                'elem_kind': getattr(t, 'elem_kind', None)}))
         if isinstance(t, ObjT):
@@ -230,6 +230,8 @@ class CallMixin:
             from .state import State
             tmp = State()
             tmp.env['$mod'] = cdef.module
+            tmp.env['$classdef'] = cdef
+            tmp.env['$evaluating'] = attr
             # class bodies see earlier class-level names
             for k, ex in cdef.assigns.items():
                 if k == attr:
@@ -290,6 +292,12 @@ class CallMixin:
     def key_term(self, k, h):
         if h.meta.get('key') == 'Int':
             return to_int_term(k)
+        if h.meta.get('key') == 'Str':
+            if isinstance(k, str):
+                return z3.StringVal(k)
+            if is_sym(k) and z3.is_string(k):
+                return k
+            raise EngineError(f'string map key {k!r}')
         if isinstance(k, Opaque):
             return k.term
         if is_sym(k) and k.sort() == U:
@@ -329,6 +337,21 @@ class CallMixin:
                         return [ok(h.items[k], st)]
                     return [rs(ExcV('IndexError'), st)]
                 raise EngineError('symbolic index into concrete list')
+            if h.kind == 'dict' and is_sym(k) and z3.is_string(k):
+                keys = [kk for kk in h.items if isinstance(kk, str)]
+                if len(keys) != len(h.items) or not all(isinstance(x, str) for x in h.items.values()):
+                    raise EngineError('symbolic-key lookup in a dict that is not str -> str')
+                out = []
+                hit = z3.Or([k == z3.StringVal(kk) for kk in keys]) if keys else z3.BoolVal(False)
+                for found, s2 in self.branch(st, hit):
+                    if not found:
+                        out.append(rs(ExcV('KeyError', (k,)), s2))
+                        continue
+                    val = z3.StringVal(h.items[keys[-1]])
+                    for kk in keys[:-1]:
+                        val = z3.If(k == z3.StringVal(kk), z3.StringVal(h.items[kk]), val)
+                    out.append(ok(val, s2))
+                return out
             if h.kind == 'dict':
                 kk = self.hashable_key(k)
                 if kk in h.items:
@@ -389,6 +412,9 @@ class CallMixin:
         if isinstance(c, Ref):
             h = st.obj(c)
             if h.kind == 'dict':
+                if is_sym(k) and z3.is_string(k):
+                    self.promote_dict_to_smap(c, st, 'Str')
+                    return self.setitem(c, k, v, st, line)
                 h.items[self.hashable_key(k)] = v
                 return [(NORMAL, st)]
             if h.kind == 'list':
@@ -410,16 +436,59 @@ class CallMixin:
                     h.meta['vals'] = {'arr': z3.Store(h.meta['vals']['arr'], kt, arr), 'len': z3.Store(h.meta['vals']['len'], kt, n)}
                     h.meta['present'] = z3.Store(h.meta['present'], kt, True)
                     return [(NORMAL, st)]
-                elif isinstance(v, Opaque):
-                    v = v.term
-                else:
+                elif h.meta['val_t'] is Int:
                     v = to_int_term(v)
+                else:
+                    v = self.as_u_term(v, st)
                 h.meta['vals'] = z3.Store(h.meta['vals'], kt, v)
                 h.meta['present'] = z3.Store(h.meta['present'], kt, True)
                 return [(NORMAL, st)]
             if h.kind == 'symdict':
                 return self.symdict_setitem(c, h, k, v, st, line)
         raise EngineError(f'item assignment on {type(c).__name__} at line {line}')
+
+    def as_u_term(self, v, st):
+        """Injection of a modelled value into the opaque sort (for Any-valued maps)."""
+        if isinstance(v, Opaque):
+            return v.term
+        if isinstance(v, str):
+            return z3.Function('str_as_U', z3.StringSort(), U)(z3.StringVal(v))
+        if is_sym(v) and z3.is_string(v):
+            return z3.Function('str_as_U', z3.StringSort(), U)(v)
+        if is_sym(v) and z3.is_int(v) or (isinstance(v, int) and not isinstance(v, bool)):
+            return z3.Function('int_as_U', z3.IntSort(), U)(to_int_term(v))
+        if isinstance(v, FStr):
+            return self.fstr_as_u(v)
+        if isinstance(v, Ref):
+            return z3.Const(f'ref!{v.oid}', U)
+        if v is None:
+            return z3.Const('None_as_U', U)
+        if is_sym(v) and v.sort() == U:
+            return v
+        raise EngineError(f'cannot store {type(v).__name__} in an opaque-valued map')
+
+    def fstr_as_u(self, f):
+        """Structured strings as opaque terms: injective in their integer components (A-FMT)."""
+        skel = '|'.join(p if isinstance(p, str) else '%d' for p in f.parts)
+        ints = [to_int_term(p) for p in f.parts if not isinstance(p, str)]
+        fn = z3.Function('fstr_' + ''.join(ch if ch.isalnum() else '_' for ch in skel) + f'_{len(ints)}',
+                         *([z3.IntSort()] * len(ints) + [U]))
+        return fn(*ints)
+
+    def promote_dict_to_smap(self, ref, st, key_kind='Str'):
+        """A concrete-key dict that receives a symbolic key becomes a symbolic map (in place)."""
+        h = st.obj(ref)
+        ks = {'U': U, 'Int': z3.IntSort(), 'Str': z3.StringSort()}[key_kind]
+        present = z3.K(ks, z3.BoolVal(False))
+        vals = z3.K(ks, z3.Const('absent_val', U))
+        h.kind = 'smap'
+        h.meta = {'present': present, 'vals': vals, 'default_int': False, 'key': key_kind, 'val_t': Any}
+        items = h.items
+        h.items = None
+        for k, v in items.items():
+            kt = self.key_term(k, h)
+            h.meta['present'] = z3.Store(h.meta['present'], kt, True)
+            h.meta['vals'] = z3.Store(h.meta['vals'], kt, self.as_u_term(v, st))
 
     def list_as_array(self, v, st):
         """(element array, length) of a list value (concrete list of ints or a map-held list)."""
@@ -512,7 +581,7 @@ class CallMixin:
                     if isinstance(v, Ref) and s.obj(v).kind == 'dict':
                         for kk, vv in s.obj(v).items.items():
                             kwargs[kk] = vv
-                    elif isinstance(v, Ref) and s.obj(v).kind == 'symdict':
+                    elif isinstance(v, Ref) and s.obj(v).kind in ('symdict', 'smap'):
                         kwargs['**'] = v
                     elif isinstance(v, Opaque) and v.kind in ('kwargs',):
                         kwargs['**'] = v
